@@ -905,6 +905,188 @@ func genTowns(r *vproto.Rng) *netCase {
 	return b.c
 }
 
+// star: nodes of HIGH DEGREE (mutation N32: `From` lists at most 6 neighbours).  Variant 0: a hub with 7-40 spokes
+// to distinct lattice positions, further branches (1-3 nodes) behind the spokes (more often behind the late ones), a few
+// expensive cross links between spoke ends (so that a missing spoke shows as a non-minimal route as well as an empty one);
+// queries hub -> EVERY spoke end, hub -> every branch leaf, spoke -> spoke.  Variant 1: a grid whose links are all
+// detoured (longer than the node spacing) with 1-2 junctions joined to 7-24 other grid nodes by straight Manhattan
+// chords (strictly cheaper than any grid path); queries junction -> every chord end and chord end -> chord end.
+func genStar(r *vproto.Rng) *netCase {
+	b := newBuilder(r, "star", true)
+	sp := float64(4 * r.Range(1, 4))
+	spd := func() float64 {
+		if b.c.opt == "T" || r.Chance(0.3) {
+			return pow2(r)
+		}
+		return 1
+	}
+	if r.Chance(0.6) {
+		k := r.Range(7, 40)
+		if r.Chance(0.5) {
+			k = r.Range(7, 12)
+		}
+		m := 3
+		for (2*m+1)*(2*m+1) < 4*k+8 {
+			m++
+		}
+		usedCell := map[[2]int]bool{{0, 0}: true}
+		cell := func() geom.Point {
+			for {
+				x, y := r.Range(-m, m), r.Range(-m, m)
+				if !usedCell[[2]int{x, y}] {
+					usedCell[[2]int{x, y}] = true
+					return pt(float64(x)*sp, float64(y)*sp)
+				}
+			}
+		}
+		hub := b.node(pt(0, 0))
+		var ends, leaves []int
+		for i := 0; i < k; i++ {
+			e := b.node(cell())
+			det := 0.0
+			if r.Chance(0.3) {
+				det = float64(r.Range(1, 5)) * float64(1-2*r.Intn(2))
+			}
+			b.joinExact(hub, e, det, spd())
+			ends = append(ends, e)
+			p := 0.15
+			if i >= 6 {
+				p = 0.5
+			}
+			if r.Chance(p) && len(b.nodes) < 3*k {
+				prev := e
+				for d := r.Range(1, 3); d > 0; d-- {
+					n := b.node(cell())
+					b.joinExact(prev, n, 0, spd())
+					prev = n
+				}
+				leaves = append(leaves, prev)
+			}
+		}
+		for x := r.Intn(4); x > 0; x-- { // expensive cross links between spoke ends
+			i, j := ends[r.Intn(k)], ends[r.Intn(k)]
+			b.joinExact(i, j, float64(8*r.Range(4, 9)), 1.0/8)
+		}
+		b.shuffleLinks()
+		H := b.nodes[hub]
+		for _, e := range ends {
+			if r.Bool() {
+				b.c.qs = append(b.c.qs, query{H, b.nodes[e], -1})
+			} else {
+				b.c.qs = append(b.c.qs, query{pt(H.X+sp/4, H.Y-sp/8), pt(b.nodes[e].X-sp/8, b.nodes[e].Y+sp/4), -1})
+			}
+		}
+		for _, l := range leaves {
+			b.c.qs = append(b.c.qs, query{H, b.nodes[l], -1})
+		}
+		for x := 0; x < 6; x++ {
+			all := append(append([]int(nil), ends...), leaves...)
+			b.c.qs = append(b.c.qs, query{b.nodes[all[r.Intn(len(all))]], b.nodes[all[r.Intn(len(all))]], -1})
+		}
+		return b.c
+	}
+	w, h := r.Range(4, 8), r.Range(4, 7)
+	for y := 0; y < h; y++ {
+		for x := 0; x < w; x++ {
+			b.node(pt(float64(x)*sp, float64(y)*sp))
+		}
+	}
+	for y := 0; y < h; y++ {
+		for x := 0; x < w; x++ {
+			for _, d := range [][2]int{{1, 0}, {0, 1}} {
+				xx, yy := x+d[0], y+d[1]
+				if xx >= w || yy >= h || r.Chance(0.1) {
+					continue
+				}
+				b.joinExact(y*w+x, yy*w+xx, float64(r.Range(1, 3))*float64(1-2*r.Intn(2)), 1)
+			}
+		}
+	}
+	for jn := r.Range(1, 2); jn > 0; jn-- {
+		j := r.Intn(w * h)
+		var tg []int
+		for k := r.Range(7, 24); k > 0; k-- {
+			t := r.Intn(w * h)
+			sp2 := 1.0
+			if b.c.opt == "T" {
+				sp2 = math.Ldexp(1, r.Range(0, 3)) // never slower than the grid links
+			}
+			if b.joinExact(j, t, 0, sp2) {
+				tg = append(tg, t)
+			}
+		}
+		for _, t := range tg {
+			b.c.qs = append(b.c.qs, query{b.nodes[j], b.nodes[t], -1})
+		}
+		for x := 0; x < 4 && len(tg) > 1; x++ {
+			b.c.qs = append(b.c.qs, query{b.nodes[tg[r.Intn(len(tg))]], b.nodes[tg[r.Intn(len(tg))]], -1})
+		}
+	}
+	b.shuffleLinks()
+	return b.c
+}
+
+// chain: LONG routes (mutation N33: a total that skips the links beyond the 16th).  A serpentine path of 17-80 links with a
+// power-of-two speed per link under both options (the time total is reported under Distance too), rungs between the rows
+// that are mostly expensive (the long way round stays optimal) and sometimes cheap; queries end to end, both ways, and
+// between nodes at least 17 links apart along the path.
+func genChain(r *vproto.Rng) *netCase {
+	b := newBuilder(r, "chain", true)
+	n := r.Range(17, 80)
+	W := r.Range(4, 12)
+	if r.Chance(0.25) {
+		W = n + 1 // one straight line
+	}
+	sp := float64(4 * r.Range(1, 3))
+	at := func(i int) (int, int) {
+		row, col := i/W, i%W
+		if row%2 == 1 {
+			col = W - 1 - col
+		}
+		return col, row
+	}
+	for i := 0; i <= n; i++ {
+		x, y := at(i)
+		b.node(pt(float64(x)*sp, float64(y)*sp))
+	}
+	for i := 0; i < n; i++ {
+		det := 0.0
+		if r.Chance(0.15) {
+			det = float64(r.Range(1, 3))
+		}
+		b.joinExact(i, i+1, det, pow2(r))
+	}
+	for i := 0; i+W <= n; i++ { // rungs: node i and the node above it in the next row
+		x, y := at(i)
+		for j := i + 1; j <= n && j < i+2*W; j++ {
+			xx, yy := at(j)
+			if xx == x && yy == y+1 && j > i+1 && r.Chance(0.2) {
+				if r.Chance(0.8) {
+					b.joinExact(i, j, float64(8*r.Range(20, 40)), 1.0/64)
+				} else {
+					b.joinExact(i, j, 0, pow2(r))
+				}
+			}
+		}
+	}
+	if r.Bool() {
+		b.shuffleLinks()
+	}
+	b.c.qs = append(b.c.qs, query{b.nodes[0], b.nodes[n], -1}, query{pt(b.nodes[n].X+sp/4, b.nodes[n].Y+sp/8), pt(b.nodes[0].X-sp/8, b.nodes[0].Y-sp/4), -1})
+	for x := 0; x < 4; x++ {
+		i := r.Intn(n - 16)
+		j := i + 17 + r.Intn(n-16-i)
+		if j > n {
+			j = n
+		}
+		if r.Bool() {
+			i, j = j, i
+		}
+		b.c.qs = append(b.c.qs, query{b.nodes[i], b.nodes[j], -1})
+	}
+	return b.c
+}
+
 // genGapNet: link end vertices that are only NEAR their node (inside op.PointEquals' relative tolerance, integers at
 // magnitudes ~1e9 so that every float operation on lengths and totals is exact): S--M, M'--T with M' = M + g2 towards T,
 // and a direct link S'--T with S' = S + g3, g3 < g2: the chain over M costs 2L - g2, the direct link 2L - g3.  An
@@ -1083,6 +1265,24 @@ func gen(seed uint64, tier string) {
 		fmt.Fprintln(out, genTowns(r))
 		if i%6 == 0 {
 			fmt.Fprintln(out, genCC(r))
+		}
+	}
+	// wave 3 families on their own random stream (the cases of the older families stay what they were)
+	r2 := vproto.NewRng(seed*0x9e3779b97f4a7c15 + 19)
+	for i := 0; i < n; i++ {
+		c := genStar(r2)
+		c.addHistory(r2, 0.15)
+		if r2.Chance(0.3) {
+			c.rescale(r2)
+		}
+		fmt.Fprintln(out, c)
+		if i%2 == 0 {
+			c = genChain(r2)
+			c.addHistory(r2, 0.3)
+			if r2.Chance(0.3) {
+				c.rescale(r2)
+			}
+			fmt.Fprintln(out, c)
 		}
 	}
 	// the priority queue on its own (tie of the Lean heap model to container/heap + gonum's aStarQueue)
